@@ -492,6 +492,65 @@ let rec run toks =
     let t = var_dd (szf f) f.rule (nat_of_int (nlev f)) (nat_of_int p) ts in
     set_edge a fn t; show a
   | "apply" :: r :: fn :: (("post" | "pre" | "reach_fs" | "reach_nofs" | "reach_sat"
+                            | "rreach_fs" | "rreach_nofs" | "rreach_sat") as op) :: a :: b :: _
+    when (match Hashtbl.find_opt fors fn with
+        | Some fr -> fr.lab = EVP || (fr.lab = MT && fr.range = RInt)
+        | None -> false) ->
+    (* distance-valued operands: EV+ (+infinity = unreachable) or MT integers
+       (negative = unreachable) *)
+    Hashtbl.remove edges r; Hashtbl.remove evtabs r;
+    let fr = get_forest fn in
+    let (fbn, tb) = get_edge b in
+    let fm = get_forest fbn in
+    if (not fm.rel) || fm.lab <> MT || fm.range <> RBool || fr.rel || fr.fdom <> fm.fdom then raise Unsupported;
+    let k = Array.length fr.sizes in
+    let szs = szf fr in
+    let states = all_asg szs (nat_of_int k) in
+    (* initial distances *)
+    let d0 : (nat -> nat) -> z option =
+      if Hashtbl.mem evtabs a then begin
+        let (fan, tab) = Hashtbl.find evtabs a in
+        let fa = get_forest fan in
+        if fa.rel || fa.fdom <> fr.fdom || fa.sizes <> fr.sizes then raise Unsupported;
+        let arr = Array.of_list tab in
+        (* index of a state in the table: level k most significant *)
+        (fun y ->
+           let idx = ref 0 in
+           for lv = k downto 1 do
+             idx := !idx * fr.sizes.(lv - 1) + int_of_nat (y (nat_of_int lv))
+           done;
+           let v = arr.(!idx) in if v >= inf then None else Some (z_of_int v))
+      end else begin
+        let (fan, ta) = get_edge a in
+        let fa = get_forest fan in
+        if fa.rel || fa.lab <> MT || fa.range <> RInt || fa.fdom <> fr.fdom || fa.sizes <> fr.sizes then raise Unsupported;
+        (fun y -> let v = int_of_z (eval fa.rule (nat_of_int k) ta y) in if v < 0 then None else Some (z_of_int v))
+      end in
+    let rel x y = rel_mem (nat_of_int k) fm.rule tb x y in
+    let eqb x y =
+      let ok = ref true in
+      for lv = 1 to k do if int_of_nat (x (nat_of_int lv)) <> int_of_nat (y (nat_of_int lv)) then ok := false done;
+      !ok in
+    (* the frontier variant is not offered for distance-valued sets *)
+    if op = "reach_fs" || op = "rreach_fs" then raise Unsupported;
+    let fwd = (op = "post" || op = "reach_fs" || op = "reach_nofs" || op = "reach_sat") in
+    let step = if fwd then dpost states rel else dpre states rel in
+    let res : (nat -> nat) -> z option =
+      match op with
+      | "post" | "pre" -> step d0
+      | _ ->
+        (match dist_bfs states step eqb (nat_of_int (List.length states + 2)) d0 with
+         | Some d -> d
+         | None -> raise Unsupported) in
+    if fr.lab = EVP then begin
+      let tab = List.map (fun y -> match res y with Some d -> int_of_z d | None -> inf) states in
+      Hashtbl.replace evtabs r (fn, tab); show_ev r
+    end else begin
+      let t = of_fun szs fr.rule (nat_of_int k) O
+          (fun y -> match res y with Some d -> d | None -> z_of_int (-1)) (fun _ -> O) in
+      set_edge r fn t; show r
+    end
+  | "apply" :: r :: fn :: (("post" | "pre" | "reach_fs" | "reach_nofs" | "reach_sat"
                             | "rreach_fs" | "rreach_nofs" | "rreach_sat" | "vm" | "mv") as op) :: a :: b :: _ ->
     Hashtbl.remove edges r; Hashtbl.remove evtabs r;
     let fr = get_forest fn in
